@@ -129,6 +129,13 @@ bool QXmppBookmarkManager::setBookmarks(const QXmppBookmarkSet &bookmarks)
 bool QXmppBookmarkManager::handleStanza(const QDomElement &stanza)
 {
     if (stanza.tagName() == u"iq") {
+        // Only responses from the private storage are processed here. Requests must not be
+        // swallowed: the client answers unhandled IQ requests with an error (RFC 6120, 8.2.3).
+        const auto iqType = stanza.attribute(u"type"_s);
+        if (iqType == u"get" || iqType == u"set") {
+            return false;
+        }
+
         if (QXmppPrivateStorageIq::isPrivateStorageIq(stanza)) {
             QXmppPrivateStorageIq iq;
             iq.parse(stanza);
